@@ -212,6 +212,16 @@ def run(tier, seed, replay=None):
                 texts.append(rng.choice(['select {a} as x, {b} from t where y = {c}', 'select * from t where a > {a} and b in ({b}, {c})',
                                          'select a + {a} from t order by b limit 3', 'insert into t (a, b) values ({a}, {b})',
                                          'update t set a = {a} where b < {b}']).format(a=a, b=b, c=c))
+        if not replay:
+            # every subset of the optional clauses of a SELECT, alone and inside a sub-select / a UNION branch
+            clauses = [('where', ' where a > 1'), ('group', ' group by a'), ('having', ' having max(b) > 0'), ('order', ' order by a desc'),
+                       ('limit', ' limit 5'), ('offset', ' offset 3')]
+            for mask in range(1 << len(clauses)):
+                tail = ''.join(txt_ for i_, (nm_, txt_) in enumerate(clauses) if mask >> i_ & 1)
+                texts.append('select a, b from tab' + tail)
+                if mask % 5 == 0:
+                    texts.append(f'select * from (select a from tab{tail}) as t limit 5')
+                    texts.append(f'select a from tab{tail} union select a from tab2')
         if d == 'mindsdb' and not replay:
             texts += RAW_SECTIONS
         muts = []
